@@ -38,11 +38,15 @@ def run(ctx):
     facts = ctx.facts(rra)
 
     loops = [n for n in cf.nodes if n.kind == "for"]
+    # the assignment loop appends to (an element of) the value the function returns; loops that only build the
+    # list of pairs append to a local that is iterated afterwards
+    returned = {root_name(x.value) for x in ast.walk(rra.node) if isinstance(x, ast.Return) and x.value is not None}
     main = None
     for n in loops:
         body = cf.reach([n.id], avoid=[t for t, lab in cf.succ[n.id] if lab == ("iter", False)])
-        if any(any(call_name(c) == "append" for c in cf.nodes[i].calls()) for i in body):
-            main = n
+        if any(any(call_name(c) == "append" and root_name(c.func.value) in returned for c in cf.nodes[i].calls()) for i in body):
+            if main is None or n.id not in cf.reach([t for t, lab in cf.succ[main.id] if lab == ("iter", True)], avoid=[main.id]):
+                main = n
     need(main is not None, "assignment loop not found")
     tgt = [unparse(e) for e in main.stmt.target.elts] if isinstance(main.stmt.target, ast.Tuple) else [unparse(main.stmt.target)]
     need(len(tgt) == 2, "assignment loop does not iterate (topic, partition) pairs")
@@ -112,16 +116,35 @@ def run(ctx):
         if isinstance(x, ast.Assign) and x.value is cyc[0]:
             cyc_var = unparse(x.targets[0])
     nexts = [n for n in cf.nodes if any(call_name(c) == "next" and c.args and unparse(c.args[0]) == cyc_var for c in n.calls())]
-    whiles = [n for n in cf.nodes if n.kind == "test" and isinstance(n.stmt, ast.While)]
-    outside = [n for n in nexts if not any(n.id in cf.reach([t for t, lab in cf.succ[w.id] if lab and lab[0] == "cond" and lab[2]],
-                                                            avoid=[w.id]) | set(t for t, lab in cf.succ[w.id] if lab and lab[2])
-                                           for w in whiles)]
-    inside = [n for n in nexts if n not in outside]
-    ok = len(outside) == 1 and cf.dominates([outside[0].id], a.id) and main.id in cf.reach([outside[0].id]) and len(whiles) == 1 \
+    # an advance may be followed by another one only across the outcome "this member is not subscribed to the topic"
+    from ..cfg import cond_atoms
+
+    def _unsub(lab):
+        return bool(lab) and lab[0] == "cond" and any(
+            (not pol) and t.startswith("%s in " % topic_v) and member_v and "[%s]" % member_v in t and t.endswith(".subscriptions")
+            for t, pol in cond_atoms(lab[1], lab[2]))
+    next_ids = {n.id for n in nexts}
+    body_entry = [t for t, lab in cf.succ[main.id] if lab == ("iter", True)]
+    starts = [b for b in body_entry if b not in next_ids]
+    first = bool(nexts) and a.id not in starts and a.id not in cf.reach(starts, avoid=list(next_ids) + [main.id])
+    again = 0
+    for n in nexts:
+        seen, stack = set(), [t for t, lab in cf.succ[n.id] if lab != ("exc",) and not _unsub(lab)]
+        while stack:
+            x = stack.pop()
+            if x in seen or x == main.id:
+                continue
+            seen.add(x)
+            if x in next_ids:
+                again += 1
+                continue
+            stack.extend(t for t, lab in cf.succ[x] if lab != ("exc",) and not _unsub(lab))
+    in_loop = set(cf.reach(body_entry, avoid=[main.id])) | set(body_entry)
+    ok = first and not again and next_ids <= in_loop \
         and all(norm(n.stmt.value) == "next(%s)" % cyc_var and unparse(n.stmt.targets[0]) == member_v for n in nexts
-                if isinstance(n.stmt, ast.Assign))
-    r.check(ok, "%s#single-advance" % rra.qname, "the member cycle is advanced %d times per partition outside the search loop"
-            % len(outside), where(rra, main.stmt), "identical subscriptions: spread between members exceeds one partition")
+                if isinstance(n.stmt, ast.Assign)) and all(isinstance(n.stmt, ast.Assign) for n in nexts)
+    r.check(ok, "%s#single-advance" % rra.qname, "the member cycle is not advanced exactly once per partition apart from skipping unsubscribed members "
+            "(advance before the append: %s; unconditional further advances: %d)" % (first, again), where(rra, main.stmt), "identical subscriptions: spread between members exceeds one partition")
 
     # ---- R5 blob keyed by the looked-up member; absent -> empty
     r = ctx.rule("R5", "each member's blob encodes the assignment looked up under that member's id (empty if absent)", 1, "A")
@@ -130,8 +153,12 @@ def run(ctx):
     for comp in [x for x in walk_body_shallow(gen.body) if isinstance(x, (ast.ListComp, ast.GeneratorExp)) and len(x.generators) == 1
                  and not x.generators[0].ifs and isinstance(x.elt, ast.Call) and isinstance(x.elt.func, ast.Name) and x.elt.func.id in gen.nested]:
         g_ = gen.nested[comp.elt.func.id]
-        if len(g_.params) == 1 and len(comp.elt.args) == 1 and norm(comp.elt.args[0]) == unparse(comp.generators[0].target):
+        tv_ = unparse(comp.generators[0].target)
+        if len(g_.params) == 1 and len(comp.elt.args) == 1 and norm(comp.elt.args[0]) == tv_:
             units.append((g_.params[0], g_.node, comp.generators[0].iter))
+        elif len(g_.params) == 1 and len(comp.elt.args) == 1 and norm(comp.elt.args[0]) == "%s.member_id" % tv_:
+            # the closure is handed the member's id itself
+            units.append(("=" + g_.params[0], g_.node, comp.generators[0].iter))
     ok = False
     for lv, scope_, it_ in units:
         encs = [c for c in ast.walk(scope_) if isinstance(c, ast.Call) and call_name(c) == "encode_sync_group_member_assignment"]
@@ -141,7 +168,8 @@ def run(ctx):
             encv = [unparse(x.targets[0]) for x in ast.walk(scope_) if isinstance(x, ast.Assign) and x.value is encs[0]]
             amap = [unparse(x.targets[0]) for x in walk_body_shallow(gen.body) if isinstance(x, ast.Assign) and isinstance(x.value, ast.Call)
                     and call_name(x.value) == "_round_robin_assignment"]
-            ok = (bool(amap) and norm(av) in ("%s.get(%s.member_id, {})" % (amap[0], lv),) and norm(mems[0].args[0]) == "%s.member_id" % lv
+            mid = lv[1:] if lv.startswith("=") else "%s.member_id" % lv
+            ok = (bool(amap) and norm(av) in ("%s.get(%s, {})" % (amap[0], mid),) and norm(mems[0].args[0]) == mid
                   and ((encv and norm(mems[0].args[1]) == encv[0]) or mems[0].args[1] is encs[0]) and unparse(it_) == gen.params[1])
     r.check(ok, "%s#blob-keyed-by-member" % gen.qname, "blob and lookup do not use the same member id, or absent members do "
             "not get the empty assignment", where(gen, gen.node), "a member decodes another member's partitions")
@@ -180,12 +208,31 @@ def run(ctx):
             "a subscribed topic that maps to an empty list: the leader raises again after the reload, nothing handles it, no SyncGroup is sent")
     # the snapshot handed to the leader is the cached list itself, not a filtered view of it
     ltp = ctx.func("client:KafkaClient._load_topic_partitions")
-    snaps = [x for x in ast.walk(ltp.node) if isinstance(x, ast.Assign) and isinstance(x.targets[0], ast.Subscript) and norm(x.targets[0].value) == "snapshot"]
+    # the mapping that is returned (whatever its local is called, also through a copy `snapshot = usable`): every entry
+    # stored in it is the cached list of that very topic
+    cl_ = ctx.cfg(ltp)
+    maps = set()
+    for n_ in cl_.nodes:
+        for c_ in n_.calls():
+            if call_name(c_) == "returnValue" and c_.args and isinstance(c_.args[0], ast.Name):
+                maps.add(c_.args[0].id)
+                for _dn, e_ in (value_origins(cl_, n_.id, c_.args[0], params=ltp.params) or []):
+                    if isinstance(e_, ast.Name):
+                        maps.add(e_.id)
+        if n_.kind == "stmt" and isinstance(n_.stmt, ast.Return) and isinstance(n_.stmt.value, ast.Name):
+            maps.add(n_.stmt.value.id)
+    for _ in range(2):
+        for x in walk_body_shallow(ltp.body):
+            if isinstance(x, ast.Assign) and isinstance(x.value, ast.Name) and any(isinstance(t, ast.Name) and t.id in maps for t in x.targets):
+                maps.add(x.value.id)
+    snaps = [(n_, t, n_.stmt.value) for n_ in cl_.nodes if n_.kind == "stmt" and isinstance(n_.stmt, ast.Assign) for t in n_.stmt.targets
+             if isinstance(t, ast.Subscript) and isinstance(t.value, ast.Name) and t.value.id in maps]
     oksn = bool(snaps)
-    for x in snaps:
-        v = x.value
+    for n_, t, v in snaps:
+        key_ = norm(t.slice)
         inner = v.args[0] if isinstance(v, ast.Call) and call_name(v) in ("list", "sorted", "tuple") and len(v.args) == 1 else v
-        oksn = oksn and norm(inner) in ("self.topic_partitions[%s]" % norm(x.targets[0].slice), "partitions")
+        ogs = value_origins(cl_, n_.id, inner, params=ltp.params) if isinstance(inner, ast.Name) else [(n_.id, inner)]
+        oksn = oksn and bool(ogs) and all(norm(e_) in ("self.topic_partitions[%s]" % key_, "self.topic_partitions.get(%s)" % key_) for _d, e_ in ogs)
     r.check(oksn, "%s#snapshot-unfiltered" % ltp.qname, "the partition snapshot given to the group leader is not the cached partition list of the topic",
             where(ltp, snaps[0] if snaps else ltp.node), "a momentarily leaderless partition is left out and assigned to nobody for the whole generation")
     gens = [c for n in cj.nodes for c in n.calls() if call_name(c) == "generate_assignments"]
